@@ -77,6 +77,116 @@ def parseDeb (s : List Char) : PRes DebV :=
     | some (up, rev) => .ok ⟨epoch, up, rev⟩
     | none => .ok ⟨epoch, rest, ['0']⟩
 
-def debianFam : Family := ⟨DebV, parseDeb, cmpDeb⟩
+/-! ### as the Go code writes them, with failing index / slice sites (`none` = run-time panic)
+
+Positions are counted in characters (the Go code counts bytes; the separators and the digits are
+ASCII, so a byte position found by `strings.Index…` is a character boundary and the slices taken
+there are the same strings). -/
+
+/-- `strings.IndexFunc(s, p)` / `strings.IndexAny` / `strings.Index` for one character: position of
+the first character satisfying `p`, −1 when there is none -/
+def indexFunc (p : Char → Bool) (s : List Char) : Int :=
+  let n := (s.takeWhile fun c => !p c).length
+  if n < s.length then (n : Int) else -1
+
+/-- `strings.LastIndex(s, string(c))` -/
+def lastIndexOf (c : Char) (s : List Char) : Int :=
+  let n := (s.reverse.takeWhile fun x => x ≠ c).length
+  if n < s.length then (s.length : Int) - 1 - (n : Int) else -1
+
+/-- `splitAround` as written: `s[:i]`, `s[i+1:]` (version-debian.go:35) -/
+def splitAroundGo (s : List Char) (c : Char) (reverse : Bool) : Option (List Char × List Char) :=
+  let i := if reverse then lastIndexOf c s else indexFunc (fun x => x = c) s
+  if i = -1 then some (s, [])
+  else (goSlice s 0 i).bind fun a => (goSlice s (i + 1) s.length).bind fun b => some (a, b)
+
+/-- `splitDebianNonDigitPrefix` as written: `str[:i]`, `str[i:]` -/
+def debNonDigitPrefixGo (s : List Char) : Option (List Char × List Char) :=
+  let i := indexFunc isDigit s
+  if i = 0 || s.isEmpty then some ([], s)
+  else
+    let i := if i = -1 then (s.length : Int) else i
+    (goSlice s 0 i).bind fun p => (goSlice s i s.length).bind fun r => some (p, r)
+
+/-- `splitDebianDigitPrefix` as written; the inner `none` is the `convertToBigInt` error -/
+def debDigitPrefixGo (s : List Char) : Option (Option (Int × List Char)) :=
+  let i := indexFunc (fun c => !isDigit c) s
+  if i = 0 || s.isEmpty then some (some (0, s))
+  else
+    let i := if i = -1 then (s.length : Int) else i
+    (goSlice s 0 i).bind fun d =>
+      match toBig d with
+      | none => some none
+      | some n => (goSlice s i s.length).bind fun r => some (some (n, r))
+
+/-- `weighDebianChar` as written, on one element of `strings.Split(prefix, "")` or the default `""`:
+`char[0]` (version-debian.go:85) behind the `char == ""` test -/
+def debWeighGo (char : List Char) : Option Nat :=
+  if char = ['~'] then some 1
+  else if char = [] then some 2
+  else (goIndex char 0).bind fun c =>
+    let n := firstByte c
+    some (if n < 65 || (n > 90 && n < 97) || n > 122 then n + 122 else n)
+
+/-- the weights of one position: `fetch(apSplit, i, "")`, `fetch(bpSplit, i, "")` (utilities.go:39) -/
+def debWeighCmpGo (x y : List Char) : Option Ordering :=
+  (debWeighGo x).bind fun wx => (debWeighGo y).bind fun wy => some (ncmp wx wy)
+
+def cmpDebNonDigitGo (ap bp : List Char) : Option Ordering :=
+  if ap = bp then some .eq
+  else cmpPadGo debWeighCmpGo [] (ap.map fun c => [c]) (bp.map fun c => [c])
+
+/-- `if diff != 0 || err != nil { return … }` before a step that may crash -/
+def CRes.andThenGo (r : CRes) (k : Option CRes) : Option CRes :=
+  match r with
+  | .ord .eq => k
+  | r => some r
+
+def cmpDebStrGo : Nat → List Char → List Char → Option CRes
+  | 0, _, _ => some (.ord .eq)
+  | fuel + 1, a, b =>
+    if a.isEmpty && b.isEmpty then some (.ord .eq)
+    else
+      (debNonDigitPrefixGo a).bind fun pa => (debNonDigitPrefixGo b).bind fun pb =>
+      (cmpDebNonDigitGo pa.1 pb.1).bind fun d =>
+        (CRes.ord d).andThenGo
+          ((debDigitPrefixGo pa.2).bind fun ra =>
+            match ra with
+            | none => some .err
+            | some xa =>
+              (debDigitPrefixGo pb.2).bind fun rb =>
+                match rb with
+                | none => some .err
+                | some yb => (CRes.ord (icmp xa.1 yb.1)).andThenGo (cmpDebStrGo fuel xa.2 yb.2))
+
+def cmpDebGo (v w : DebV) : Option CRes :=
+  (CRes.ord (icmp v.epoch w.epoch)).andThenGo
+    ((cmpDebStrGo (debFuel v.upstream w.upstream) v.upstream w.upstream).bind fun r =>
+      r.andThenGo (cmpDebStrGo (debFuel v.revision w.revision) v.revision w.revision))
+
+/-- `parseDebianVersion` as written: `splitAround` behind `strings.Contains` -/
+def parseDebGo (s : List Char) : Option (PRes DebV) :=
+  let s := trimSpace s
+  (if s.contains ':' then
+      (splitAroundGo s ':' false).bind fun p =>
+        some (match toBig p.1 with
+          | some n => some (n, p.2)
+          | none => none)
+    else some (some ((0 : Int), s))).bind fun ep =>
+  match ep with
+  | none => some .err
+  | some er =>
+    if er.2.contains '-' then (splitAroundGo er.2 '-' true).bind fun q => some (.ok ⟨er.1, q.1, q.2⟩)
+    else some (.ok ⟨er.1, er.2, ['0']⟩)
+
+def PRes.joinGo {α : Type} : Option (PRes α) → PRes α
+  | some r => r
+  | none => .panic
+
+def CRes.joinGo : Option CRes → CRes
+  | some r => r
+  | none => .panic
+
+def debianFam : Family := ⟨DebV, fun s => .joinGo (parseDebGo s), fun v w => .joinGo (cmpDebGo v w)⟩
 
 end Scalibr.Semantic
